@@ -304,6 +304,34 @@ RUNS = {"c10_single_interval_sequence_memo_ignores_strand": 2500, "c10_gene_iter
 # (name, property, [(file, old, new), ...], what)
 BENIGN = [
     (
+        "benign_genbank_parser_slurps_handle", "C12",
+        [(G + "io/genbank/parser.py",
+          "    seq_records = list(SeqIO.parse(genbank_handle_or_path, format=\"genbank\"))\n",
+          "    if hasattr(genbank_handle_or_path, \"read\"):\n        from io import StringIO as _StringIO\n\n        genbank_handle_or_path = _StringIO(genbank_handle_or_path.read())\n    seq_records = list(SeqIO.parse(genbank_handle_or_path, format=\"genbank\"))\n")],
+        "GenBank parser reads the whole handle with one read() before parsing (other read pattern, same result)",
+    ),
+    (
+        "benign_gene_iter_children_iter_of_copy", "C10",
+        [(G + "gene/gene.py",
+          "    def iter_children(self) -> Iterable[TranscriptInterval]:\n        yield from self.transcripts\n",
+          "    def iter_children(self) -> Iterable[TranscriptInterval]:\n        return iter(list(self.transcripts))\n")],
+        "GeneInterval.iter_children returns an iterator over a copy instead of being a generator",
+    ),
+    (
+        "benign_gff3_parse_func_eager", "C11",
+        [(G + "io/gff3/parser.py",
+          "    for annot in parse_func(db, chroms):\n        yield ParsedAnnotationRecord(annot)\n",
+          "    parsed = [ParsedAnnotationRecord(annot) for annot in parse_func(db, chroms)]\n    yield from parsed\n")],
+        "parse_standard_gff3 converts every sequence before yielding the first record (eager instead of lazy)",
+    ),
+    (
+        "benign_fasta_extractor_reads_lines", "C11",
+        [(G + "io/gff3/parser.py",
+          "    data = StringIO(gff3_with_fasta_handle.read())\n",
+          "    data = StringIO(\"\".join(row for row in gff3_with_fasta_handle))\n")],
+        "FASTA extractor collects the remaining lines instead of calling read()",
+    ),
+    (
         "benign_parent_ancestor_memo_keyed_correctly", "C10",
         [
             ("inscripta/biocantor/__init__.py",
